@@ -202,3 +202,28 @@ func H_C09_datum_root() {
 	checkTotal(ev, v, "datum root "+name+": "+opText[op])
 	vCover("reached")
 }
+
+var scalarShapes = []int{1, 2, 5, 7, 8, 12, 27, 43, 0}
+
+// H_C09_sequence: one evaluator used on two data whose selected values have
+// different kinds, and one quantifier over elements of different kinds.
+func H_C09_sequence() {
+	op := vChoose(8)
+	v1, n1 := shapeC09(scalarShapes[vChoose(len(scalarShapes))])
+	v2, n2 := shapeC09(scalarShapes[vChoose(len(scalarShapes))])
+	lit := []string{"1", "x"}[vChoose(2)]
+	if vBool() {
+		ev := mustCreate(exprFor(op, "a", "q"))
+		if hasValue(op) {
+			setLit(ev, lit)
+		}
+		checkTotal(ev, map[string]interface{}{"a": v1}, "first call: "+opText[op]+" on "+n1)
+		checkTotal(ev, map[string]interface{}{"a": v2}, "second call after "+n1+": "+opText[op]+" on "+n2)
+	} else {
+		ev := mustCreate("(any l as x { " + exprFor(op, "x", "1") + " }) or (all l as x { " + exprFor(op, "x", "1") + " })")
+		checkTotal(ev, map[string]interface{}{"l": []interface{}{v1, v2}}, "quantifier over mixed kinds "+n1+","+n2+": "+opText[op])
+		ev2 := mustCreate(exprFor(2, "l", lit))
+		checkTotal(ev2, map[string]interface{}{"l": []interface{}{v1, v2}}, "in over mixed kinds "+n1+","+n2)
+	}
+	vCover("reached")
+}
